@@ -177,6 +177,10 @@ func c24Gen(rng *core.Rng, tier string) *harness.Plan {
 	// input finalized is dropped by that node's queue worker by design (the
 	// client must retry), which is outside this property
 	honestWorkload(rng, p, 2*time.Second, dur, 5+rng.IntN(8), 0)
+	// quiet restarts at the very beginning (before any other traffic), each followed at once by submissions
+	for i, n := range rng.Perm(7)[:2+rng.IntN(2)] {
+		p.Ops = append(p.Ops, harness.Op{At: int64((400*time.Millisecond + time.Duration(i)*150*time.Millisecond) / time.Microsecond), Kind: "restartsubmit", S: fmt.Sprint("rs", i), N: n, A: int64(rng.IntN(1000)), B: int64(rng.IntN(3)), C: int64(rng.IntN(4))})
+	}
 	// withholding windows
 	for i := 0; i < 2+rng.IntN(4); i++ {
 		at := rng.Dur(2*time.Second, dur-3*time.Second)
